@@ -105,6 +105,13 @@ func (w *SessWorld) Close() {
 	if w.GS != nil {
 		w.GS.Stop()
 	}
+	// a gRPC session owns a client connection (two 1 MB in-memory pipes, reconnecting in
+	// the background once the server has gone): release it
+	for _, s := range w.Sess {
+		if g, ok := s.S.Stream.(*drv.GRPCModStream); ok {
+			g.Close()
+		}
+	}
 }
 
 func (w *SessWorld) logf(f string, a ...any) {
